@@ -1095,6 +1095,60 @@ def WhenAny_front : String :=
 def Join_front : String :=
   "Join(futures) { CheckSameError(); return When(pack(move(futures))) } || Join(begin, count) { return When(begin, count) } || Join(begin, end) { return Join(begin, cast((end - begin))) }"
 
+def WhenSrc_when_hpp : String :=
+  "#pragma once #include <yaclib/algo/detail/inline_core.hpp> #include <yaclib/algo/detail/result_core.hpp> #include <yaclib/algo/detail/unique_core.hpp> #include <yaclib/async/contract.hpp> #include <yaclib/util/cast.hpp> #include <yaclib/util/combinator_strategy.hpp> #include <yaclib/util/helper.hpp> #include <yaclib/util/intrusive_ptr.hpp> #include <yaclib/util/ref.hpp> #include <yaclib/util/type_traits.hpp> #include <tuple> #include <vector> namespace yaclib::when { template <typename... Futures> YACLIB_INLINE void CheckSameError() { static_assert(sizeof...(Futures) > 0); using Error = typename head_t<Futures...>::Core::Error; static_assert((... && std::is_same_v<Error, typename Futures::Core::Error>), \"All futures need to have the same error type\"); } template <typename T> using IsUniqueCore = detail::IsInstantiationOf<detail::UniqueCore, T>; template <typename T> using IsSharedCore = detail::IsInstantiationOf<detail::SharedCore, T>; template <ConsumePolicy P> inline constexpr bool kIsOrdered = P == ConsumePolicy::Static || P == ConsumePolicy::Dynamic; inline constexpr std::size_t kDynamicTag = std::numeric_limits<std::size_t>::max(); template <typename Strategy, typename Core> YACLIB_INLINE void ConsumeImpl(Strategy& st, Core& core) { if constexpr (Strategy::kCorePolicy == CorePolicy::Owned) { st.Consume(core); } else { st.Consume(core.Retire()); } } template <std::size_t Index, typename Strategy, typename Core> YACLIB_INLINE void ConsumeImpl(Strategy& st, Core& core) { if constexpr (Strategy::kCorePolicy == CorePolicy::Owned) { st.template Consume<Index>(core); } else { st.template Consume<Index>(core.Retire()); } } template <typename Strategy, typename Core> YACLIB_INLINE void ConsumeImpl(Strategy& st, Core& core, std::size_t index) { if constexpr (Strategy::kCorePolicy == CorePolicy::Owned) { st.Consume(index, core); } else { st.Consume(index, core.Retire()); } } template <std::size_t Index, typename Strategy, typename Core> YACLIB_INLINE void Consume(Strategy& st, Core& core) { if constexpr (Strategy::kConsumePolicy == ConsumePolicy::None) { if constexpr (Strategy::kCorePolicy == CorePolicy::Managed) { core.DecRef(); } } else if constexpr (Strategy::kConsumePolicy == ConsumePolicy::Unordered) { ConsumeImpl(st, core); } else if constexpr (Strategy::kConsumePolicy == ConsumePolicy::Static) { ConsumeImpl<Index>(st, core); } else { ConsumeImpl(st, core, Index); } } template <typename Strategy, typename Core> YACLIB_INLINE void Consume(Strategy& st, Core& core, std::size_t index) { static_assert(Strategy::kConsumePolicy != ConsumePolicy::Static); if constexpr (Strategy::kConsumePolicy == ConsumePolicy::None) { if constexpr (Strategy::kCorePolicy == CorePolicy::Managed) { core.DecRef(); } } else if constexpr (Strategy::kConsumePolicy == ConsumePolicy::Unordered) { ConsumeImpl(st, core); } else { ConsumeImpl(st, core, index); } } template <typename Combinator, typename Core, std::size_t Index> struct CombinatorCallback final : detail::InlineCore { CombinatorCallback(Combinator* self = nullptr) : _self{self} { } [[nodiscard]] InlineCore* Here(InlineCore& caller) noexcept final { Impl(caller); return nullptr; } #if YACLIB_SYMMETRIC_TRANSFER != 0 [[nodiscard]] yaclib_std::coroutine_handle<> Next(InlineCore& caller) noexcept final { Impl(caller); return yaclib_std::noop_coroutine(); } #endif private: YACLIB_INLINE void Impl(InlineCore& caller) { auto& core = DownCast<Core>(caller); if constexpr (Index == kDynamicTag) { auto index = this - _self->callbacks.data(); Consume(_self->st, core, index); } else { Consume<Index>(_self->st, core); } _self->DecRef(); } Combinator* _self; }; template <typename... Cores> struct CoreSignature { using UniqueUniqueCores = typename Unique<typename Filter<IsUniqueCore, std::tuple<Cores...>>::Type>::Type; using SharedCores = typename Filter<IsSharedCore, std::tuple<Cores...>>::Type; static constexpr std::size_t kUniqueCount = std::tuple_size_v<UniqueUniqueCores>; static constexpr std::size_t kSharedCount = std::tuple_size_v<SharedCores>; static constexpr std::size_t kTotalCount = kUniqueCount + kSharedCount; }; template <typename Strategy, typename Core> struct SingleCombinator : detail::InlineCore { SingleCombinator(std::size_t count, typename Strategy::PromiseType p) : st{count, std::move(p)} { } template <typename... Cores> void Set(Cores&... cores) { static_assert((... && std::is_same_v<Core, Cores>)); std::size_t index = 0; (..., SetCore(cores, index++)); } template <typename Iterator, typename = typename std::iterator_traits<Iterator>::value_type> void Set(Iterator begin, std::size_t count) { for (std::size_t i = 0; i < count; ++i) { auto& core = *begin->GetCore().Release(); if constexpr (Strategy::kCorePolicy == CorePolicy::Owned) { st.Register(i, core); } if (!core.SetCallback(*this)) { Consume(st, core, i); DecRef(); } ++begin; } } [[nodiscard]] InlineCore* Here(InlineCore& caller) noexcept final { Impl(caller); return nullptr; } #if YACLIB_SYMMETRIC_TRANSFER != 0 [[nodiscard]] yaclib_std::coroutine_handle<> Next(InlineCore& caller) noexcept final { Impl(caller); return yaclib_std::noop_coroutine(); } #endif private: void SetCore(Core& core, std::size_t i) { if constexpr (Strategy::kCorePolicy == CorePolicy::Owned) { st.Register(i, core); } if (!core.SetCallback(*this)) { Consume<0>(st, core); DecRef(); } } YACLIB_INLINE void Impl(InlineCore& caller) { auto& core = DownCast<Core>(caller); Consume<0>(st, core); DecRef(); } Strategy st; }; template <typename Strategy, typename... Cores> struct StaticCombinator : IRef { private: template <typename Sequence> struct OrderedCallbacks; template <std::size_t... Is> struct OrderedCallbacks<std::index_sequence<Is...>> { using Type = std::tuple<CombinatorCallback<StaticCombinator, Cores, Is>...>; }; using UniqueUniqueCores = typename CoreSignature<Cores...>::UniqueUniqueCores; using SharedCores = typename CoreSignature<Cores...>::SharedCores; template <typename UniqueTuple, typename SharedTuple> struct UnorderedCallbacks; template <typename... UniqueCores, typename... SharedCores> struct UnorderedCallbacks<std::tuple<UniqueCores...>, std::tuple<SharedCores...>> { std::tuple<CombinatorCallback<StaticCombinator, UniqueCores, 0>...> unique_tuple; std::tuple<CombinatorCallback<StaticCombinator, SharedCores, 0>...> shared_tuple; }; using Callbacks = std::conditional_t<kIsOrdered<Strategy::kConsumePolicy>, typename OrderedCallbacks<decltype(std::make_index_sequence<sizeof...(Cores)>{})>::Type, UnorderedCallbacks<UniqueUniqueCores, SharedCores>>; template <typename Tuple, std::size_t... Is> void InitImpl(Tuple& tuple, std::index_sequence<Is...>) { ((std::get<Is>(tuple) = {this}), ...); } template <typename Tuple> void Init(Tuple& tuple) { InitImpl(tuple, std::make_index_sequence<std::tuple_size_v<Tuple>>{}); } template <std::size_t Index, typename Core> auto& GetCallbackHelper() { if constexpr (kIsOrdered<Strategy::kConsumePolicy>) { return std::get<Index>(callbacks); } else if constexpr (IsSharedCore<Core>::Value) { return std::get<translate_index_v<Index, std::tuple<Cores...>, SharedCores>>(callbacks.shared_tuple); } else { return std::get<index_of_v<Core, UniqueUniqueCores>>(callbacks.unique_tuple); } } template <std::size_t Index, typename Core> void SetCore(Core& core) { auto& callback = GetCallbackHelper<Index, Core>(); if constexpr (Strategy::kCorePolicy == CorePolicy::Owned) { st.Register(Index, core); } if (!core.SetCallback(callback)) { Consume<Index>(st, core); DecRef(); } } template <std::size_t... Is> void SetImpl(std::index_sequence<Is...>, Cores&... cores) { (SetCore<Is>(cores), ...); } public: StaticCombinator(std::size_t count, typename Strategy::PromiseType p) : st{count, std::move(p)} { if constexpr (kIsOrdered<Strategy::kConsumePolicy>) { Init(callbacks); } else { Init(callbacks.unique_tuple); Init(callbacks.shared_tuple); } } void Set(Cores&... cores) { SetImpl(std::make_index_sequence<sizeof...(Cores)>{}, cores...); } Strategy st; Callbacks callbacks; }; template <typename Strategy, typename Core> struct DynamicCombinator : IRef { DynamicCombinator(std::size_t count, typename Strategy::PromiseType p) : st{count, std::move(p)}, callbacks{count, {this}} { } template <typename Iterator> void Set(Iterator begin, std::size_t count) { for (std::size_t i = 0; i < count; ++i) { auto& core = *begin->GetCore().Release(); if constexpr (Strategy::kCorePolicy == CorePolicy::Owned) { st.Register(i, core); } if (!core.SetCallback(callbacks[i])) { Consume(st, core, i); DecRef(); } ++begin; } } Strategy st; std::vector<CombinatorCallback<DynamicCombinator, Core, kDynamicTag>> callbacks; }; template <template <FailPolicy, typename...> typename Strategy, FailPolicy F, typename OutputValue, typename OutputError, typename... Futures> auto When(Futures... futures) { if constexpr (sizeof...(Futures) == 0) { return Future<OutputValue, OutputError>{nullptr}; } else { auto [f, p] = MakeContract<OutputValue, OutputError>(); using Head = typename head_t<Futures...>::Core; using Value = typename Head::Value; using Error = typename Head::Error; using InputCore = std::conditional_t<(... && std::is_same_v<Head, typename Futures::Core>), Head, std::conditional_t<(... && (std::is_same_v<Value, typename Futures::Core::Value> && std::is_same_v<Error, typename Futures::Core::Error>)), detail::ResultCore<Value, Error>, detail::InlineCore>>; using S = Strategy<F, OutputValue, OutputError, InputCore>; using FinalCombinator = std::conditional_t<CoreSignature<typename Futures::Core...>::kTotalCount == 1 && !kIsOrdered<S::kConsumePolicy>, SingleCombinator<S, head_t<typename Futures::Core...>>, StaticCombinator<S, typename Futures::Core...>>; auto* combinator = MakeShared<FinalCombinator>(sizeof...(Futures), sizeof...(Futures), std::move(p)).Release(); combinator->Set(*futures.GetCore().Release()...); return std::move(f); } } template <template <FailPolicy, typename...> typename Strategy, FailPolicy F, typename OutputValue, typename OutputError, typename Iterator, typename Value = typename std::iterator_traits<Iterator>::value_type> auto When(Iterator begin, std::size_t count) { if (count == 0) { return Future<OutputValue, OutputError>{nullptr}; } auto [f, p] = MakeContract<OutputValue, OutputError>(); using Core = typename Value::Core; using S = Strategy<F, OutputValue, OutputError, Core>; static_assert(S::kConsumePolicy != ConsumePolicy::Static); using FinalCombinator = std::conditional_t<!kIsOrdered<S::kConsumePolicy> && IsUniqueCore<Core>::Value, SingleCombinator<S, Core>, DynamicCombinator<S, Core>>; auto* combinator = MakeShared<FinalCombinator>(count, count, std::move(p)).Release(); combinator->Set(begin, count); return std::move(f); } }"
+
+def WhenSrc_all_hpp : String :=
+  "#pragma once #include <yaclib_std/detail/atomic.hpp> #include <yaclib/async/promise.hpp> #include <yaclib/util/combinator_strategy.hpp> #include <yaclib/util/fail_policy.hpp> #include <yaclib/util/result.hpp> #include <yaclib/util/type_traits.hpp> #include <vector> namespace yaclib::when { template <FailPolicy F, typename OutputValue, typename OutputError, typename InputCore> struct All { static_assert(F != FailPolicy::LastFail, \"LastFail policy is not supported by All\"); }; template <typename OutputValue, typename OutputError, typename InputCore> struct All<FailPolicy::None, OutputValue, OutputError, InputCore> { using PromiseType = Promise<OutputValue, OutputError>; static constexpr ConsumePolicy kConsumePolicy = ConsumePolicy::None; static constexpr CorePolicy kCorePolicy = CorePolicy::Owned; All(std::size_t count, PromiseType p) : _p{std::move(p)} { _cores.resize(count); } void Register(std::size_t i, InputCore& core) { _cores[i] = &core; } ~All() { OutputValue output; output.reserve(_cores.size()); for (auto* core : _cores) { output.push_back(core->Retire()); } std::move(_p).Set(std::move(output)); } private: std::vector<InputCore*> _cores; PromiseType _p; }; template <typename OutputValue, typename OutputError, typename InputCore> struct All<FailPolicy::FirstFail, OutputValue, OutputError, InputCore> { using PromiseType = Promise<OutputValue, OutputError>; static constexpr ConsumePolicy kConsumePolicy = ConsumePolicy::Unordered; static constexpr CorePolicy kCorePolicy = CorePolicy::Owned; All(std::size_t count, PromiseType p) : _p{std::move(p)} { _cores.resize(count); } void Register(std::size_t i, InputCore& core) { _cores[i] = &core; } void Consume(InputCore& core) { auto& result = core.Get(); if (!result && !_done.load(std::memory_order_relaxed) && !_done.exchange(true, std::memory_order_acq_rel)) { if (result.State() == ResultState::Exception) { std::move(_p).Set(std::as_const(result).Exception()); } else { std::move(_p).Set(std::as_const(result).Error()); } } } ~All() { if (_p.Valid()) { OutputValue result; result.reserve(_cores.size()); for (auto* core : _cores) { result.push_back(core->Retire().Value()); } std::move(_p).Set(std::move(result)); } else { for (auto* core : _cores) { core->DecRef(); } } } private: std::vector<InputCore*> _cores; yaclib_std::atomic_bool _done = false; PromiseType _p; }; }"
+
+def WhenSrc_all_tuple_hpp : String :=
+  "#pragma once #include <yaclib_std/detail/atomic.hpp> #include <yaclib/async/promise.hpp> #include <yaclib/util/combinator_strategy.hpp> #include <yaclib/util/fail_policy.hpp> #include <yaclib/util/result.hpp> #include <yaclib/util/type_traits.hpp> namespace yaclib::when { template <FailPolicy F, typename OutputValue, typename OutputError, typename InputCore> struct AllTuple { static_assert(F != FailPolicy::LastFail, \"LastFail policy is not supported by AllTuple\"); }; template <typename OutputValue, typename OutputError, typename InputCore> struct AllTuple<FailPolicy::None, OutputValue, OutputError, InputCore> { using PromiseType = Promise<OutputValue, OutputError>; static constexpr ConsumePolicy kConsumePolicy = ConsumePolicy::Static; static constexpr CorePolicy kCorePolicy = CorePolicy::Managed; AllTuple(std::size_t count, PromiseType p) : _p{std::move(p)} { } template <std::size_t Index, typename Result> void Consume(Result&& result) { std::get<Index>(_tuple) = std::forward<Result>(result); } ~AllTuple() { std::move(_p).Set(std::move(_tuple)); } private: OutputValue _tuple; PromiseType _p; }; template <typename OutputValue, typename OutputError, typename InputCore> struct AllTuple<FailPolicy::FirstFail, OutputValue, OutputError, InputCore> { using PromiseType = Promise<OutputValue, OutputError>; static constexpr ConsumePolicy kConsumePolicy = ConsumePolicy::Static; static constexpr CorePolicy kCorePolicy = CorePolicy::Managed; AllTuple(std::size_t count, PromiseType p) : _p{std::move(p)} { } template <std::size_t Index, typename Result> void Consume(Result&& result) { if (!result && !_done.load(std::memory_order_relaxed) && !_done.exchange(true, std::memory_order_acq_rel)) { if (result.State() == ResultState::Error) { std::move(_p).Set(std::forward<Result>(result).Error()); } else { std::move(_p).Set(std::forward<Result>(result).Exception()); } } else if (result) { std::get<Index>(_tuple) = std::forward<Result>(result).Value(); } } ~AllTuple() { if (_p.Valid()) { std::move(_p).Set(std::move(_tuple)); } } private: yaclib_std::atomic_bool _done = false; OutputValue _tuple; PromiseType _p; }; }"
+
+def WhenSrc_join_hpp : String :=
+  "#pragma once #include <yaclib/async/promise.hpp> #include <yaclib/util/combinator_strategy.hpp> #include <yaclib/util/fail_policy.hpp> #include <yaclib/util/result.hpp> #include <atomic> namespace yaclib::when { template <FailPolicy F, typename OutputValue, typename OutputError, typename InputCore> struct Join { static_assert(F != FailPolicy::LastFail, \"LastFail policy is not supported by Join\"); static_assert(std::is_void_v<OutputValue>, \"OutputValue should be void for Join\"); }; template <typename OutputError, typename InputCore> struct Join<FailPolicy::None, void, OutputError, InputCore> { using PromiseType = Promise<void, OutputError>; static constexpr ConsumePolicy kConsumePolicy = ConsumePolicy::None; static constexpr CorePolicy kCorePolicy = CorePolicy::Managed; Join(std::size_t count, PromiseType p) noexcept : _p{std::move(p)} { } ~Join() { std::move(_p).Set(); } private: PromiseType _p; }; template <typename OutputError, typename InputCore> struct Join<FailPolicy::FirstFail, void, OutputError, InputCore> { using PromiseType = Promise<void, OutputError>; static constexpr ConsumePolicy kConsumePolicy = ConsumePolicy::Unordered; static constexpr CorePolicy kCorePolicy = CorePolicy::Managed; Join(std::size_t count, PromiseType p) noexcept : _p{std::move(p)} { } template <typename Result> void Consume(Result&& result) { if (!result && !_done.load(std::memory_order_relaxed) && !_done.exchange(true, std::memory_order_acq_rel)) { if (result.State() == ResultState::Error) { std::move(_p).Set(std::forward<Result>(result).Error()); } else { std::move(_p).Set(std::forward<Result>(result).Exception()); } } } ~Join() { if (_p.Valid()) { std::move(_p).Set(); } } private: yaclib_std::atomic_bool _done = false; PromiseType _p; }; }"
+
+def WhenSrc_any_hpp : String :=
+  "#pragma once #include <yaclib/async/promise.hpp> #include <yaclib/util/combinator_strategy.hpp> #include <yaclib/util/fail_policy.hpp> #include <yaclib/util/type_traits.hpp> #include <atomic> namespace yaclib::when { template <FailPolicy F, typename OutputValue, typename OutputError, typename InputCore> struct Any; template <typename OutputValue, typename OutputError, typename InputCore> struct Any<FailPolicy::None, OutputValue, OutputError, InputCore> { using PromiseType = Promise<OutputValue, OutputError>; static constexpr ConsumePolicy kConsumePolicy = ConsumePolicy::Unordered; static constexpr CorePolicy kCorePolicy = CorePolicy::Managed; Any(std::size_t count, PromiseType p) : _p{std::move(p)} { } template <typename Result> void Consume(Result&& result) { if (!_done.load(std::memory_order_relaxed) && !_done.exchange(true, std::memory_order_acq_rel)) { if (result) { std::move(_p).Set(std::forward<Result>(result).Value()); } else if (result.State() == ResultState::Error) { std::move(_p).Set(std::forward<Result>(result).Error()); } else { std::move(_p).Set(std::forward<Result>(result).Exception()); } } } yaclib_std::atomic_bool _done = false; PromiseType _p; }; template <typename OutputValue, typename OutputError, typename InputCore> struct Any<FailPolicy::FirstFail, OutputValue, OutputError, InputCore> { using PromiseType = Promise<OutputValue, OutputError>; static constexpr ConsumePolicy kConsumePolicy = ConsumePolicy::Unordered; static constexpr CorePolicy kCorePolicy = CorePolicy::Managed; Any(std::size_t count, PromiseType p) : _p{std::move(p)} { } template <typename Result> void Consume(Result&& result) { if (result) { if (_state.load(std::memory_order_relaxed) != State::kValue && _state.exchange(State::kValue, std::memory_order_acq_rel) != State::kValue) { std::move(_p).Set(std::forward<Result>(result).Value()); } } else { State expected = State::kEmpty; if (_state.load(std::memory_order_relaxed) == expected && _state.compare_exchange_strong(expected, State::kError, std::memory_order_acq_rel)) { if (result.State() == ResultState::Error) { error = std::forward<Result>(result).Error(); } else { error = std::forward<Result>(result).Exception(); } } } } ~Any() { if (_p.Valid()) { if (error.State() == ResultState::Error) { std::move(_p).Set(std::move(error).Error()); } else { std::move(_p).Set(std::move(error).Exception()); } } } private: enum class State { kEmpty, kError, kValue, }; yaclib_std::atomic<State> _state = State::kEmpty; Result<void, OutputError> error; PromiseType _p; }; template <typename OutputValue, typename OutputError, typename InputCore> struct Any<FailPolicy::LastFail, OutputValue, OutputError, InputCore> { using PromiseType = Promise<OutputValue, OutputError>; static constexpr ConsumePolicy kConsumePolicy = ConsumePolicy::Unordered; static constexpr CorePolicy kCorePolicy = CorePolicy::Managed; Any(std::size_t count, PromiseType p) : _state{2 * count}, _p{std::move(p)} { } template <typename Result> void Consume(Result&& result) { if (!DoneImpl(_state.load(std::memory_order_acquire))) { if (result) { if (!DoneImpl(_state.exchange(1, std::memory_order_acq_rel))) { std::move(_p).Set(std::forward<Result>(result).Value()); } } else if (_state.fetch_sub(2, std::memory_order_acq_rel) == 2) { if (result.State() == ResultState::Error) { std::move(_p).Set(std::forward<Result>(result).Error()); } else { std::move(_p).Set(std::forward<Result>(result).Exception()); } } } } private: static bool DoneImpl(std::size_t value) noexcept { return (value & 1U) != 0; } yaclib_std::atomic_size_t _state; PromiseType _p; }; }"
+
+def WhenSrc_when_all_hpp : String :=
+  "#pragma once #include <yaclib/algo/detail/result_core.hpp> #include <yaclib/async/when/all.hpp> #include <yaclib/async/when/all_tuple.hpp> #include <yaclib/async/when/join.hpp> #include <yaclib/async/when/when.hpp> #include <yaclib/config.hpp> #include <yaclib/util/fail_policy.hpp> #include <yaclib/util/type_traits.hpp> namespace yaclib { template <typename Core, FailPolicy F> using ContainerElem = std::conditional_t<F == FailPolicy::FirstFail, wrap_void_t<typename Core::Value>, Result<typename Core::Value, typename Core::Error>>; template <FailPolicy F = FailPolicy::FirstFail, typename... Futures, typename = std::enable_if_t<(... && is_combinator_input_v<Futures>)>> YACLIB_INLINE auto WhenAll(Futures... futures) { when::CheckSameError<Futures...>(); using Head = typename head_t<Futures...>::Core; using Value = typename Head::Value; using OutputError = typename Head::Error; if constexpr ((... && std::is_same_v<Value, typename Futures::Core::Value>)) { if constexpr (std::is_same_v<Value, void> && F != FailPolicy::None) { return when::When<when::Join, F, void, OutputError>(std::move(futures)...); } else { using OutputValue = std::vector<ContainerElem<Head, F>>; return when::When<when::All, F, OutputValue, OutputError>(std::move(futures)...); } } else { using OutputValue = std::tuple<ContainerElem<typename Futures::Core, F>...>; return when::When<when::AllTuple, F, OutputValue, OutputError>(std::move(futures)...); } } template <FailPolicy F = FailPolicy::FirstFail, typename It, typename T = typename std::iterator_traits<It>::value_type> YACLIB_INLINE auto WhenAll(It begin, std::size_t count) { using OutputError = typename T::Core::Error; if constexpr (std::is_same_v<typename T::Core::Value, void> && F != FailPolicy::None) { return when::When<when::Join, F, void, OutputError>(begin, count); } else { using OutputValue = std::vector<ContainerElem<typename T::Core, F>>; return when::When<when::All, F, OutputValue, OutputError>(begin, count); } } template <FailPolicy F = FailPolicy::FirstFail, typename It, typename T = typename std::iterator_traits<It>::value_type> YACLIB_INLINE auto WhenAll(It begin, It end) { return WhenAll<F>(begin, static_cast<std::size_t>(end - begin)); } }"
+
+def WhenSrc_when_any_hpp : String :=
+  "#pragma once #include <yaclib/async/when/any.hpp> #include <yaclib/async/when/when.hpp> #include <yaclib/config.hpp> #include <yaclib/util/fail_policy.hpp> #include <yaclib/util/type_traits.hpp> namespace yaclib { template <FailPolicy F = FailPolicy::LastFail, typename... Futures, typename = std::enable_if_t<(... && is_combinator_input_v<Futures>)>> YACLIB_INLINE auto WhenAny(Futures... futures) { when::CheckSameError<Futures...>(); using OutputValue = typename MaybeVariant<typename Unique<std::tuple<typename Futures::Core::Value...>>::Type>::Type; using OutputError = typename head_t<Futures...>::Core::Error; return when::When<when::Any, F, OutputValue, OutputError>(std::move(futures)...); } template <FailPolicy F = FailPolicy::LastFail, typename It, typename T = typename std::iterator_traits<It>::value_type> YACLIB_INLINE auto WhenAny(It begin, std::size_t count) { if constexpr (is_future_base_v<T>) { if (count == 1) { using V = async_value_t<T>; using E = async_error_t<T>; return Future<V, E>{std::exchange(begin->GetCore(), nullptr)}; } } return when::When<when::Any, F, typename T::Core::Value, typename T::Core::Error>(begin, count); } template <FailPolicy F = FailPolicy::LastFail, typename It, typename T = typename std::iterator_traits<It>::value_type> YACLIB_INLINE auto WhenAny(It begin, It end) { return WhenAny<F>(begin, static_cast<std::size_t>(end - begin)); } }"
+
+def WhenSrc_async_join_hpp : String :=
+  "#pragma once #include <yaclib/async/when/join.hpp> #include <yaclib/async/when/when.hpp> #include <yaclib/util/fail_policy.hpp> #include <yaclib/util/type_traits.hpp> namespace yaclib { template <FailPolicy F = FailPolicy::None, typename... Futures, typename = std::enable_if_t<(... && is_combinator_input_v<Futures>)>> YACLIB_INLINE auto Join(Futures... futures) { when::CheckSameError<Futures...>(); return when::When<when::Join, F, void, typename head_t<Futures...>::Core::Error>(std::move(futures)...); } template <FailPolicy F = FailPolicy::None, typename It, typename T = typename std::iterator_traits<It>::value_type> YACLIB_INLINE auto Join(It begin, std::size_t count) { return when::When<when::Join, F, void, typename T::Core::Error>(begin, count); } template <FailPolicy F = FailPolicy::None, typename It, typename T = typename std::iterator_traits<It>::value_type> YACLIB_INLINE auto Join(It begin, It end) { return Join<F>(begin, static_cast<std::size_t>(end - begin)); } };"
+
+def WhenSrc_combinator_strategy_hpp : String :=
+  "#pragma once #include <yaclib/async/promise.hpp> #include <yaclib/util/fail_policy.hpp> namespace yaclib { enum class ConsumePolicy { None, Unordered, Static, Dynamic, }; enum class CorePolicy { Owned, Managed, }; }"
+
+def WhenSrc_fail_policy_hpp : String :=
+  "#pragma once namespace yaclib { enum class FailPolicy : unsigned char { None = 0, FirstFail = 1, LastFail = 2, }; }"
+
+def WhenSrc_type_traits_inputs : String :=
+  "template <typename T> inline constexpr bool is_future_base_v = detail::IsInstantiationOf<FutureBase, T>::Value || detail::IsInstantiationOf<Future, T>::Value || detail::IsInstantiationOf<FutureOn, T>::Value; template <typename T> inline constexpr bool is_shared_future_base_v = detail::IsInstantiationOf<SharedFutureBase, T>::Value || detail::IsInstantiationOf<SharedFuture, T>::Value || detail::IsInstantiationOf<SharedFutureOn, T>::Value; template <typename T> inline constexpr bool is_task_v = detail::IsInstantiationOf<Task, T>::Value; template <typename T> inline constexpr bool is_waitable_v = is_shared_future_base_v<remove_cvref_t<T>> || (!std::is_const_v<std::remove_reference_t<T>> && is_future_base_v<remove_cvref_t<T>>); template <typename T> inline constexpr bool is_waitable_with_timeout_v = (!std::is_const_v<std::remove_reference_t<T>> && is_future_base_v<remove_cvref_t<T>>); template <typename T> inline constexpr bool is_combinator_input_v = (is_shared_future_base_v<T> || is_future_base_v<T>);"
+
+def WhenSrc_type_traits_tuples : String :=
+  "template <typename T, typename... List> inline constexpr auto kCount = (std::size_t{std::is_same_v<T, List> ? 1 : 0} + ...); template <typename T, typename... Ts> inline constexpr auto kContains = (std::is_same_v<T, Ts> || ...); template <typename T, typename Tuple> struct Prepend; template <typename T, typename... Ts> struct Prepend<T, std::tuple<Ts...>> { using Type = std::tuple<T, Ts...>; }; template <typename Tuple> struct Tail; template <typename T, typename... Ts> struct Tail<std::tuple<T, Ts...>> { using Type = std::tuple<Ts...>; }; template <typename Tuple> using tail_t = typename Tail<Tuple>::Type; template <template <typename> typename F, typename Tuple> struct Filter; template <template <typename> typename F> struct Filter<F, std::tuple<>> { using Type = std::tuple<>; }; template <template <typename> typename F, typename T> struct Filter<F, std::tuple<T>> { using Type = std::conditional_t<F<T>::Value, std::tuple<T>, std::tuple<>>; }; template <template <typename> typename F, typename T, typename... Ts> struct Filter<F, std::tuple<T, Ts...>> { private: using PrevType = typename Filter<F, std::tuple<Ts...>>::Type; public: using Type = std::conditional_t<F<T>::Value, typename Prepend<T, PrevType>::Type, PrevType>; }; template <typename Tuple> struct Unique; template <> struct Unique<std::tuple<>> { using Type = std::tuple<>; }; template <typename T> struct Unique<std::tuple<T>> { using Type = std::tuple<T>; }; template <typename T, typename... Ts> struct Unique<std::tuple<T, Ts...>> { private: using PrevType = typename Unique<std::tuple<Ts...>>::Type; public: using Type = std::conditional_t<kContains<T, Ts...>, PrevType, typename Prepend<T, PrevType>::Type>; }; template <typename Tuple> struct Variant; template <typename... Ts> struct Variant<std::tuple<Ts...>> { using Type = std::variant<Ts...>; }; template <typename Tuple> struct MaybeVariant; template <typename T> struct MaybeVariant<std::tuple<T>> { using Type = T; }; template <typename... Ts> struct MaybeVariant<std::tuple<Ts...>> { using Type = std::variant<Ts...>; }; template <typename T> struct WrapVoid { using Type = T; }; template <> struct WrapVoid<void> { using Type = Unit; }; template <typename T> using wrap_void_t = typename WrapVoid<T>::Type; template <std::size_t FromIndex, std::size_t ToIndex, typename FromTuple, typename ToTuple> struct TranslateIndexImpl; template <std::size_t ToIndex, typename... From, typename... To> struct TranslateIndexImpl<0, ToIndex, std::tuple<From...>, std::tuple<To...>> { static_assert(sizeof...(From) >= sizeof...(To)); static constexpr std::size_t Index() { return ToIndex; } }; template <std::size_t FromIndex, std::size_t ToIndex, typename... From, typename... To> struct TranslateIndexImpl<FromIndex, ToIndex, std::tuple<From...>, std::tuple<To...>> { static_assert(sizeof...(From) >= sizeof...(To)); static_assert(FromIndex != 0); static constexpr std::size_t Index() { if constexpr (std::is_same_v<head_t<From...>, head_t<To...>>) { return TranslateIndexImpl<FromIndex - 1, ToIndex + 1, tail_t<std::tuple<From...>>, tail_t<std::tuple<To...>>>::Index(); } else { return TranslateIndexImpl<FromIndex - 1, ToIndex, tail_t<std::tuple<From...>>, std::tuple<To...>>::Index(); } } }; template <std::size_t FromIndex, typename FromTuple, typename ToTuple> inline constexpr std::size_t translate_index_v = TranslateIndexImpl<FromIndex, 0, FromTuple, ToTuple>::Index(); template <typename T, typename Tuple> struct IndexOf; template <typename T, typename... Ts> struct IndexOf<T, std::tuple<Ts...>> { static_assert(sizeof...(Ts) > 0); static constexpr std::size_t Index() { if constexpr (std::is_same_v<T, head_t<Ts...>>) { return 0; } else { return 1 + IndexOf<T, tail_t<std::tuple<Ts...>>>::Index(); } } }; template <typename T, typename Tuple> inline constexpr std::size_t index_of_v = IndexOf<T, Tuple>::Index();"
+
+def When_StaticCombinator_GetCallbackHelper : String :=
+  "GetCallbackHelper() { ifc (kIsOrdered) { return get(callbacks) } else ifc (Value) { return get(callbacks.shared_tuple) } else { return get(callbacks.unique_tuple) } }"
+
+def When_StaticCombinator_InitImpl : String :=
+  "InitImpl(tuple, _) { fold((get(tuple) = init(this))) }"
+
+def When_CombinatorCallback_Here : String :=
+  "Here(caller) { Impl(caller); return nullptr }"
+
+def When_SingleCombinator_Here : String :=
+  "Here(caller) { Impl(caller); return nullptr }"
+
+def TypeTraits_TranslateIndexImpl_Index : String :=
+  "Index() { return ToIndex } || Index() { ifc (is_same_v) { return TranslateIndexImpl<FromIndex-1,ToIndex+1,tail_t<std::tuple<From...>>,tail_t<std::tuple<To...>>>::Index() } else { return TranslateIndexImpl<FromIndex-1,ToIndex,tail_t<std::tuple<From...>>,std::tuple<To...>>::Index() } }"
+
+def TypeTraits_IndexOf_Index : String :=
+  "Index() { ifc (is_same_v) { return 0 } else { return (1 + IndexOf<T,tail_t<std::tuple<Ts...>>>::Index()) } }"
+
 def Destroy_await_suspend : String :=
   "await_suspend(handle) { var promise = handle.promise(); return promise.SetResult() }"
 
